@@ -79,6 +79,7 @@ def run(rep: Report, tier: str) -> None:
 	rule_e(rep)
 	rule_f(rep)
 	rule_g(rep)
+	rule_h(rep)
 
 
 def rule_g(rep: Report) -> None:
@@ -522,3 +523,71 @@ def rule_e(rep: Report) -> None:
 			continue
 		got = (mn[0], mx, mn[1])
 		r.check(got == exp, f'{member} ({sym})', f.where, f'repeat kind {member} (`{sym}`{" / [ ]" if member == opt_member else ""}) accepts min {got[0]}, max {got[1]} repetitions (empty placeholder: {got[2]}); the meta-grammar means min {exp[0]}, max {exp[1]} (placeholder: {exp[2]}): text that repeats an optional group (e.g. `f(a b)`) would be accepted', unparse(loop)[:160])
+
+
+# ---- (h) unwrap markers ---------------------------------------------------------------------------------------------------------------
+
+def rule_h(rep: Report) -> None:
+	"""`sym[1]` replaces a child tree by its only child when it has exactly ONE child, `sym[*]` splices all children, anything else is kept. The count is
+	over ALL children of the tree, the `__empty__` placeholders of omitted `[ ]` groups included: `lambda[1] := ("lambda" [var_names] ":")? ternary`
+	with an empty parameter list has the children (__empty__, body) and must stay a lambda; counting (or splicing) a filtered list turns `lambda: x`
+	into `x`. Decided on SyntaxParser._unwrap_children: what is put into the result per arm, and under which conditions."""
+	from vlib.match import FI, atoms, expand_use, nodes
+	r = rep.rule('C11/unwrap-markers', '_unwrap_children: under the one-time marker a child tree is replaced by child.children[0] only if len(child.children) == 1 counted over all children; under the always marker all of child.children are spliced; otherwise the child itself is kept', floor=3)
+	idx = SourceIndex()
+	m = idx.mod(SYNTAX_PY)
+	f = m.func('SyntaxParser._unwrap_children')
+	if f is None:
+		r.skip('_unwrap_children', (SYNTAX_PY, 1), 'SyntaxParser._unwrap_children vanished')
+		r.floor = 1
+		return
+	fx = f.node
+	loops = [lp for lp in nodes(fx, ast.For) if isinstance(lp.target, ast.Name)]
+	if len(loops) != 1:
+		r.skip('_unwrap_children', f.where, 'not one loop over the children')
+		r.floor = 1
+		return
+	cv = loops[0].target.id
+	kids = f'{cv}.children'
+	n_sites = 0
+	for c_ in nodes(loops[0], ast.Call):
+		if not (isinstance(c_.func, ast.Attribute) and c_.func.attr in ('append', 'extend') and len(c_.args) == 1):
+			continue
+		val = expand_use(fx, c_.args[0])
+		txt = unparse(val)
+		known = [(expand_use(fx, a), p_) for a, p_ in atoms(fx, c_)]
+		marker = next((x.attr for a, p_ in known if p_ and isinstance(a, ast.Compare) and isinstance(a.ops[0], ast.Eq) for x in ast.walk(a) if isinstance(x, ast.Attribute) and isinstance(x.value, ast.Name) and x.value.id == 'Unwraps'), None)
+		key = f'{c_.func.attr}({unparse(c_.args[0])[:40]})'
+		where = (SYNTAX_PY, c_.lineno)
+		n_sites += 1
+		if txt == cv:
+			r.ok(f'keep:{key}', where)
+			continue
+		if kids not in txt:
+			r.skip(key, where, f'value `{txt[:60]}` is neither the child nor built from {kids}')
+			continue
+		whole = txt == kids and c_.func.attr == 'extend'
+		first = txt == f'{kids}[0]' and c_.func.attr == 'append' or (txt in (f'{kids}[:1]', kids) and c_.func.attr == 'extend')
+		if marker == 'Always':
+			r.check(whole, f'always:{key}', where, f'under the always marker _unwrap_children adds `{txt[:80]}` instead of splicing all of {kids}: children (among them the placeholders that keep the positions of omitted optional parts) are lost or reordered', unparse(c_))
+			continue
+		if marker != 'OneTime':
+			r.skip(key, where, f'children of the child are spliced under conditions that name no unwrap marker: {[unparse(a)[:50] for a, _ in known]}')
+			continue
+		lens = [a for a, p_ in known if p_ and isinstance(a, ast.Compare) and len(a.ops) == 1 and isinstance(a.ops[0], ast.Eq) and any(isinstance(x, ast.Call) and isinstance(x.func, ast.Name) and x.func.id == 'len' for x in ast.walk(a))]
+		if not lens:
+			r.violate(f'one-time:{key}', where, f'the one-time unwrap is not conditioned on the number of children: a tree with several children loses all but the spliced ones', unparse(c_))
+			continue
+		a = lens[0]
+		side, other = (a.left, a.comparators[0]) if isinstance(a.left, ast.Call) else (a.comparators[0], a.left)
+		counted = unparse(side.args[0]) if isinstance(side, ast.Call) and side.args else '?'
+		if counted != kids:
+			r.violate(f'one-time:{key}', where, f'the one-time unwrap counts `{counted[:90]}` instead of all of {kids}: a tree whose other children are placeholders of omitted optional parts (`lambda: x` = (__empty__, body) under `lambda[1]`) is replaced by its one real child, so the lambda disappears from the tree', unparse(a))
+		elif not (isinstance(other, ast.Constant) and other.value == 1):
+			r.violate(f'one-time:{key}', where, f'the one-time unwrap applies when `{unparse(a)}`; the marker means exactly one child', unparse(a))
+		elif not first:
+			r.violate(f'one-time:{key}', where, f'the one-time unwrap adds `{txt[:80]}` instead of the only child {kids}[0]', unparse(c_))
+		else:
+			r.ok(f'one-time:{key}', where)
+	if n_sites == 0:
+		r.skip('_unwrap_children', f.where, 'no append / extend in the loop')
